@@ -1,4 +1,5 @@
 # C14 — stop_token: one winning stop request, each callback exactly once (structural part; DESIGN.md §5 C14)
+import re
 from engine.core import AnalysisBroken, P, T, callee_of, callee_short, cond_atoms, loc_of, strip, forward, block_path, is_moved, walk
 from engine.kinds import (LockFlow, FactFlow, check_guarded, precedes_on_all_paths, always_followed_by)
 from .common import facts, lib, driver, witness
@@ -220,8 +221,9 @@ def run(rep, tier):
         raise AnalysisBroken("request_stop: hand-over of the is_removed flag not found")
     for b, i, ev in hand:
         var = T(strip(ev["rhs"]))[1:]
-        fresh = lambda e, var=var: (e.get("k") == "decl" and e.get("var") == var and e.get("init") is not None and T(strip(e["init"])) == "false") or \
-            (e.get("k") == "write" and P(e["lhs"]) == var and T(strip(e.get("rhs"))) == "false")
+        isfalse = lambda x: re.sub(r"^(bool)?[{(]\s*|\s*[})]$", "", T(strip(x))) in ("false", "0", "")
+        fresh = lambda e, var=var: (e.get("k") == "decl" and e.get("var") == var and not e.get("static") and e.get("init") is not None and isfalse(e["init"])) or \
+            (e.get("k") == "write" and P(e["lhs"]) == var and e.get("op", "=") == "=" and isfalse(e.get("rhs")))
         if precedes_on_all_paths(rs, fresh, (b, i), reset_pred=lambda e: e.get("k") == "call" and callee_of(e) == EXEC):
             rep.ok("C14.R4", rs, "the per-callback flag '%s' is reset to false before every execute()" % var)
         else:
